@@ -44,6 +44,16 @@ CLAIMS = {
    note=NOTE_COMMON + "A-LINALG (C12) assumed for fs_diagonalize_hermitian/fs_svd/fs_diagonalize_symmetric: reconstruction Z^dagger diag(m^2) Z, unitarity and ordering of the reported factors "
         "are exactly that assumption applied to the proved matrices; IEEE rounding not covered.",
    technique="symbolic execution of the extracted generated code + z3 NRA against an independent Lagrangian spec; exception/flag effects as ghost state", design='5 C04'),
+ 'C05': dict(
+   text="Contracts on the DR-bar -> on-shell conversion code: state SELECTION (right-like smuon for every orthogonal mixing matrix; bino-like neutralino by complex modulus, applied to the pole "
+        "mixing matrix when it is filled); exact INVERSION identities through the real mass-matrix functions (sneutrino matrix == pole^2 after convert_ml2; the fixed-point updates assign exactly "
+        "the M2/mu/M1 entries and subtract exactly the D-/F-term part of the smuon (1,1) entry); WARN-OR-FIT as ghost flag traces (convert_me2: one flag operation, on its own flag, set iff the "
+        "achieved precision exceeds the goal, root finder tried iff the FPI missed; convert_Mu_M1_M2: if the flag is cleared the FINAL chargino and bino-like neutralino masses are within the goal, "
+        "else the reported precision is their distance -- loop unrolled for max_iterations 0,1,2 with the spectrum routines as functions of the parameters: BOUNDED in the iteration count); "
+        "PRESERVATION frames (no later step of convert_to_onshell writes what a fitted mass matrix reads).",
+   note=NOTE_COMMON + "Convergence of the iterations, conditioning and parameter recovery are numerical statements outside contracts (not decided); diagonalisations under A-LINALG. "
+        "The Mu/M1/M2 loop obligations are bounded (<= 2 iterations) and labelled so.  One open finding: the Yukawa update after the smuon fit moves the right-like smuon off its pole mass without warning.",
+   technique="symbolic execution with callee contracts (spectrum routines as functions of the parameters, flag operations as ghost traces), ring identities through the real mass-matrix code, frame inference", design='5 C05'),
  'C06': dict(
    text="Relational contracts f(state) == f(flipped state) on the real MSSM functions, proved as rational-function identities for ALL parameter values: every leading-log one-loop term, "
         "amu1Lapprox with and without resummation, tan_beta_cor, Delta_mu/tau/b, the two-loop fermion/sfermion approximations and their log corrections are invariant under negating "
